@@ -18,7 +18,7 @@ class Stream(io.BytesIO):
     pass
 
 
-def make_app(probe=None, config=None, private_errors=False):
+def make_app(probe=None, config=None, private_errors=False, app=None, foreign=None):
     """probe(app, where) is called inside handlers (C08/C10 use it to read request/response attributes).
     private_errors: give the application its own error objects instead of the process-wide ones of DefaultConfig.errors_map
     (reference applications use this, so that nothing they do can reach the application under test through a shared object)."""
@@ -27,14 +27,32 @@ def make_app(probe=None, config=None, private_errors=False):
     if private_errors:
         cfg['errors_map'] = {k: ombott.HTTPError(v.status_code, v.body) for k, v in ombott.DefaultConfig.errors_map.items()}
     cfg.update(config or {})
-    app = ombott.Ombott(cfg)
+    if app is None:
+        app = ombott.Ombott(cfg)
+    else:
+        app.setup(cfg)          # an existing application (the module-level default app) gets the same configuration
     rq, rs = app.request, app.response
+    # foreign: dict with an optional callable under 'act', run in the middle of the /foreign handler (C10: nested calls, copy(), construction)
+    foreign = foreign if foreign is not None else {}
+
+    @app.route('/foreign', overwrite=True)
+    def foreign_handler():
+        q = rq.query.get('q', '')
+        rs.headers['X-Before'] = 'b' + q
+        rs.set_cookie('fc', 'f' + q)
+        p('foreign:before')
+        act = foreign.get('act')
+        if act:
+            act(app)
+        p('foreign:after')
+        rs.headers['X-After'] = 'a' + rq.query.get('q', '')
+        return 'foreign %s %s %s' % (q, rq.path, rq.get_cookie('seen', 'none'))
 
     def p(where):
         if probe is not None:
             probe(app, where)
 
-    @app.route('/ok')
+    @app.route('/ok', overwrite=True)
     def ok():
         p('ok:start')
         q = rq.query.get('q', '')
@@ -46,18 +64,18 @@ def make_app(probe=None, config=None, private_errors=False):
         p('ok:end')
         return 'ok %s %s %s' % (q, c, rq.headers.get('X-In', '-'))
 
-    @app.route('/only', method='POST')
+    @app.route('/only', method='POST', overwrite=True)
     def only():
         return 'posted'
 
-    @app.route('/body', method='POST')
+    @app.route('/body', method='POST', overwrite=True)
     def body():
         p('body:start')
         n = len(rq.body.read())
         p('body:end')
         return 'len %d' % n
 
-    @app.route('/form', method='POST')
+    @app.route('/form', method='POST', overwrite=True)
     def form():
         p('form:start')
         f = rq.forms
@@ -65,24 +83,24 @@ def make_app(probe=None, config=None, private_errors=False):
         p('form:end')
         return out
 
-    @app.route('/json', method='POST')
+    @app.route('/json', method='POST', overwrite=True)
     def js():
         return 'json %r' % (rq.json,)
 
-    @app.route('/crash')
+    @app.route('/crash', overwrite=True)
     def crash():
         rs.headers['X-Before-Crash'] = rq.query.get('q', '')
         rs.set_cookie('crashcookie', 'c')
         raise RuntimeError('crash ' + rq.query.get('q', ''))
 
-    @app.route('/raised')
+    @app.route('/raised', overwrite=True)
     def raised():
         q = rq.query.get('q', '')
         r = ombott.HTTPResponse('raised ' + q, 202, X_Raised=q)
         r.set_cookie('rc', 'r' + q)
         raise r
 
-    @app.route('/gen')
+    @app.route('/gen', overwrite=True)
     def gen():
         q = rq.query.get('q', '')
         rs.headers['X-Gen'] = q
@@ -94,7 +112,7 @@ def make_app(probe=None, config=None, private_errors=False):
             yield ' ' + rq.query.get('q', '')
         return g()
 
-    @app.route('/abort')
+    @app.route('/abort', overwrite=True)
     def ab():
         rs.set_cookie('pre', 'abort' + rq.query.get('q', ''))
         rs.headers['X-Pre'] = 'set-before-abort'
@@ -106,6 +124,8 @@ def make_env(kind, n, stream_cls=Stream):
     q = 'q=%d%s' % (n, 'x' * (n % 7))
     if kind == 'ok':
         return _e('GET', '/ok', q, headers={'Cookie': 'seen=v%d' % n, 'X-In': 'in%d' % n})
+    if kind == 'foreign':
+        return _e('GET', '/foreign', q, headers={'Cookie': 'seen=f%d' % n})
     if kind == 'head_ok':
         return _e('HEAD', '/ok', q)
     if kind == 'ok_json_accept':
